@@ -18,6 +18,7 @@ pub(crate) enum FormattingOutcome {
 #[derive(Copy, Clone, Debug, Eq, PartialEq)]
 pub(crate) enum FormattingSkip {
     InvalidSyntax,
+    NoLayout,
     PositionOverflow,
 }
 
@@ -25,6 +26,7 @@ impl FormattingSkip {
     pub(crate) fn message(self) -> &'static str {
         match self {
             | Self::InvalidSyntax => "the document does not parse",
+            | Self::NoLayout => "no layout keeps the document's block constructs at the start of a line",
             | Self::PositionOverflow => "the document is too large for an LSP text edit",
         }
     }
@@ -48,8 +50,11 @@ impl DocumentFormatter {
             | Ok(unit) => unit,
             | Err(_) => return FormattingOutcome::Skipped(FormattingSkip::InvalidSyntax),
         };
-        let formatted =
-            PrettyFormatter::with_source(&parser.arena, &parser.spans, source).render_unit(unit);
+        let Ok(formatted) =
+            PrettyFormatter::with_source(&parser.arena, &parser.spans, source).try_render_unit(unit)
+        else {
+            return FormattingOutcome::Skipped(FormattingSkip::NoLayout);
+        };
         if formatted == source {
             return FormattingOutcome::Unchanged;
         }
